@@ -34,6 +34,17 @@ Second round (b):
 * **C18-b** (instrumented leave_room raises where the plain one does not): needed `leave_ghost` (leave a room in a namespace with no rooms) and skip_sid emits.
 * **C19-b** (DisconnectedError before buffered events are returned): the oracle now has a `final_disconnect` marker (wrapping `connected_event.set`) and requires every event that arrived before it to be returned first.
 * **C20-b** (mark removed at the top of basic_disconnect): the known-finding signature was refined a second time: a later check counts as the known window only if it *started* while another thread was between its successful check and the completion of its mark.
+
+Third round (c) - 8 of 18 missed at first:
+
+* **C02-c** (placeholder recognised by key presence instead of truthiness): payloads never contained dicts resembling the attachment placeholder. `gen_value` now produces look-alikes that are *not* placeholders (falsy `_placeholder`, only one of the two keys). Dicts that *are* placeholders on the wire (`{'_placeholder': truthy, 'num': n}` next to bytes) violate C02 on the unchanged tree - recorded as known finding `C02:placeholder_lookalike` and exercised in a separate final phase of the run so that it cannot mask anything else.
+* **C04-c** (TypeError fallback of the connect handler moved out of the try that catches ConnectionRefusedError; threaded server): generated handlers were all `*args`. Connect handlers now also come with the fixed signatures `(sid, environ, auth)` / `(sid, environ)` and disconnect handlers with the legacy `(sid)`.
+* **C12-c** (stray ACK creates an empty callbacks dict; a later emit with callback raises KeyError at the offender): needed an emit *with a callback* to a room that contains the offender as well as the bystanders.
+* **C14-c** (asyncio server catches a raising disconnect handler around the whole namespace loop): the differential check ran every sub-scenario with all-plain choice streams, i.e. no handler ever raised. Handler and callback failures are now placed by *content* (who is concerned, how often that handler ran for them) in the c05/c06/c09/c11 sub-scenarios, identical in both worlds.
+* **C15-c** (AsyncRedisManager unsubscribes in a `finally` of its listen generator): needed junk messages on the Redis back ends (previously only outages) and asyncio's async-generator finaliser hooks in SimLoop (an abandoned generator is closed later by a task of the loop, as under `run_forever`).
+* **C18-c** (instrumented `_trigger_event` stores the timestamp after the connect handler): application connect handlers were trivial. They now refuse, kick the client, enter rooms, emit, or pause while the transport is lost.
+* **C19-c** (`connected_event.set()` before `connected = False`): needed (1) a pre-emption point *after* `Event.set()/clear()` in the thread kernel, (2) a consumer step that becomes runnable the moment the client notices the loss and then calls emit(), (3) the clause "an emit()/call() released from its wait after the final disconnect began must not return normally", plus delivery of every emit on a healthy connection.
+* **C20-c** (enter_room split into a server-level check and a manager access): needed a third application thread making a non-terminating call on the same session id, and a second client keeping the namespace alive (access granularity only: inside the manager's own methods such calls are not atomic with respect to a termination, which the property does not quantify over).
 """
 
 
